@@ -12,6 +12,13 @@ NOT_APPLICABLE = {
     "C20": "clamps, Whalley-Wilmott band, SVI, bilerp, Box-Muller, realised volatility: piecewise formulas of the input tensor; " + PURE,
 }
 PLANNED = ["C01", "C02", "C03", "C06", "C10", "C11", "C12", "C13", "C14", "C15", "C16", "C17", "C18"]
+C18TXT = ("PARTIAL. Decided, on simulated state only: Hedger(BlackScholes(d)) and Hedger(WhalleyWilmott(d)) for the four option kinds run to the end of "
+          "simulated time give finite hedges and P&L - in ordinary markets, flat markets (sigma = 0), after shocks pushing |log-moneyness| large, with "
+          "dt from 1/365 to 0.25 and cost zero/positive (F9); derivative-bound module.price()/delta() over the full simulated state are NaN-free; at "
+          "the maturity column (and at every column of a flat market) the price equals the payoff that is then certain; P&L with a listed, "
+          "Black-Scholes-priced hedging instrument is finite. A non-finite hedger result is attributed to the first pricing-module method that is "
+          "non-finite on that state and to the market condition there (zero volatility / zero time / far from strike). NOT decided: stand-alone "
+          "function clauses not reached by simulated state (limit of every delta at arbitrary arguments, rejection of negative arguments).")
 TECH = "deterministic simulation with fault injection: "
 CLAIMED = {
     "C01": {
@@ -25,6 +32,12 @@ CLAIMED = {
         "design_ref": "DESIGN.md 6/C06",
         "note": "Shift-equivariance is not asserted for the isoelastic (CRRA) criterion, which is not translation invariant; default-search criteria run in float64 only (bisect precision 1e-6 vs float32 ulp: termination is C19); non-finite P&L samples (a C18 matter) are skipped and counted.",
         "technique": TECH + "relational checks between API calls on RNG-replayed identical paths, restart fault",
+    },
+    "C10": {
+        "text": "PARTIAL. Decided: with the normals supplied and recorded by the simulator through the `engine` seam, every step of generate_brownian / generate_geometric_brownian, and of generate_merton_jump / generate_kou_jump / MertonJumpStock / KouJumpStock at zero jump intensity, is explained by an unused column of the supplied normals through the exact SDE solution (any injective column map, same for all paths); with the engine stalled (F11: zeros) the path is the closed-form noise-free curve; sigma = 0 skeletons of Vasicek (theta + (x0 - theta)exp(-kappa t) from any x0) and of the local-volatility Euler scheme. NOT decided: every distributional clause of the property (means, variances, correlations, martingale property, QE branch moments, rough-Bergomi forward variance) - those need large-sample statistics with error bars, which is statistical testing, not deterministic simulation; the rough-Bergomi and Vasicek-law defects named in the property text are therefore outside this check (the Vasicek recursion defect was found through the skeleton and C11, and fixed).",
+        "design_ref": "DESIGN.md 6/C10",
+        "note": "Partial claim: clause 1 and the noise-free skeleton only. Implied normals compared within the rounding bound of the cumulative sum.",
+        "technique": TECH + "simulator-owned random engine (recorded / stalled), step-by-step SDE reference",
     },
     "C11": {
         "text": "Well-formedness invariants (shape, documented buffer set, first column = requested or default initial state, finiteness, positivity of exponential-type prices, non-negative variances, volatility = sqrt(variance), dtype, buffers replaced entirely - no shared storage, old tensors untouched, no surviving column) are evaluated after EVERY simulate() of a primary, whoever triggered it (primary, derivative, compute_loss, price, fit, lazy materialisation; observed through an instance-level wrapper that also checks that n_paths / init_state were forwarded), in seeded histories with casts, default-dtype flips (F4) and re-simulation with changing shape (F10); plus direct calls of the nine generate_* functions with the same parameter swarm (n_steps >= 1, scalar/tuple initial states, float32/64, half precisions with default parameters). Both QE branches are counted by re-deriving psi from the produced path.",
@@ -79,6 +92,12 @@ CLAIMED = {
         "design_ref": "DESIGN.md 6/C16",
         "note": "Trusts torch determinism with one thread; values compared bitwise (requires_grad flag flips are only counted); 'empty' feature excluded; CPU only.",
         "technique": "deterministic simulation with fault injection: seeded operation/fault histories, snapshot invariants, restart-equivalence oracle, ddmin-shrunk JSON replay",
+    },
+    "C18": {
+        "text": C18TXT,
+        "design_ref": "DESIGN.md 6/C18",
+        "note": "Partial claim. States with the spot exactly on the strike at zero volatility/time (where the limit itself is infinite or undefined) are skipped and counted. Five known-finding sites (autograd-based lookback delta and American-binary gamma at zero volatility/time).",
+        "technique": TECH + "hedgers and bound pricing modules run to the end of simulated time under market-data faults (flat markets, shocks)",
     },
 }
 
